@@ -138,7 +138,7 @@ def gen_case(rng, tier):
     ordered = [d for d in s.docs]
     # exactly one unsafe element per case (an unsafe node that is refused aborts the build and would mask everything after it);
     # everything else is safe and must keep working
-    focus = rng.choice(['dyn', 'dyn', 'taint', 'taint', 'deep', 'deep'])
+    focus = rng.choice(['dyn', 'dyn', 'taint', 'taint', 'deep', 'deep', 'rename', 'alias', 'rec'])
     # --- dynamic nodes with merge histories
     keys = []
     n_dyn = rng.choice([1, 1, 2, 3])
@@ -308,6 +308,77 @@ def gen_case(rng, tier):
         if payload_kind == 'taint' and cons_path:
             i4 = s.uid()
             put(safe1['doc'], (f'cp{j}',), SP('call', func=f'verif_targets.s{i4}', args=L([SP('xref', path=cons_path)])))
+    # --- a safe function node whose target name (or a direct argument) is overridden by unsafe content: a plain string /
+    #     mapping that is unsafe only by inheritance (marker on its document root, its source, an ancestor) or by its own tag
+    raw_alias = None
+    if focus == 'rename':
+        i, i2 = s.uid(), s.uid()
+        kind = rng.choice(['call', 'bind'])
+        base = SP(kind, func=f'verif_targets.s{i}', args=M([['x', S(1)]]))
+        what_ = rng.choice(['name', 'name', 'arg'])
+        ov = S(f'verif_targets.u{i2}', style=rng.choice(['dq', 'plain'])) if what_ == 'name' else M([['x', S(f'TAINT{i2}', style='dq')]])
+        depth = rng.choice([0, 0, 1, 2])
+        chain = tuple(['rn'] + ['lvl%d' % d for d in range(depth)])
+        put(safe1['doc'], chain, base)
+        if kind == 'bind':
+            put(safe1['doc'], ('rn_use',), SP('eval', code='rn' + ''.join(f'["lvl{d}"]' for d in range(depth)) + '()'))
+        if how in ('root', 'source', 'include') and udoc is not None:
+            put(udoc['doc'], chain, ov)
+        else:
+            later = safe2 if safe2 is not None else s.doc()
+            if later not in ordered:
+                ordered.append(later)
+            if how == 'tag' or depth == 0:
+                ov['unsafe'] = True
+                put(later['doc'], chain, ov)
+            else:
+                put(later['doc'], chain, ov)
+                dict((k, v) for k, v in later['doc']['items'])['rn']['unsafe'] = True
+    if focus == 'alias':
+        # one node reachable under two paths (yaml anchor + alias): the unsafe value is first evaluated under one path and then
+        # handed to a consumer through the other
+        i, i2 = s.uid(), s.uid()
+        mark_on = rng.choice(['leaf', 'container'])
+        anchor = ('&anc !unsafe {v: "TAINT%d", w: 1}' % i) if mark_on == 'container' else ('&anc {v: !unsafe "TAINT%d", w: 1}' % i)
+        ref = rng.choice(['aq', 'aq.v', 'ap', 'ap.v'])
+        expr = ref.split('.')[0] + ''.join(f"['{c}']" for c in ref.split('.')[1:])
+        cons = rng.choice([f'!call:verif_targets.s{i2} {{a: !xref {ref}}}', f'!call:verif_targets.s{i2} [!xref {ref}]', f'!eval "T.s{i2}({expr})"',
+                           f'!call:verif_targets.s{i2} {{a: !eval "{expr}"}}'])
+        lines = [f'ap: {anchor}', 'aq: *anc', f'ac: {cons}']
+        if rng.random() < 0.5:
+            lines = [lines[2], lines[0], lines[1]]
+        raw_alias = '\n'.join(lines) + '\n'
+    # --- lazily included files (!rec): a file named by unsafe content is unsafe, whatever the !rec node itself is
+    rec_files = {}
+    if focus == 'rec':
+        i, i2, i3 = s.uid(), s.uid(), s.uid()
+        rec_files['rec_s.yaml'] = f'ok: !call:verif_targets.s{i} {{x: 1}}\nplain: 1\n'
+        payload = rng.choice([f'hook: !call:verif_targets.u{i2} {{x: 2}}\n', f'hook: !eval "T.u{i2}(2)"\n', f'hook: !import vtaint_{i2}.thing\n',
+                              f'val: "TAINT{i2}"\nuse: !call:verif_targets.s{i3} [!xref val]\n'])
+        rec_files['rec_u.yaml'] = payload
+        via = rng.choice(['elem_tag', 'elem_tag', 'append', 'extend', 'index', 'whole', 'control'])
+        if via == 'control':
+            # everything safe: the lazily included file must simply work (shows that the scenario reaches the evaluation of !rec)
+            put(safe1['doc'], ('r',), SP('raw', text='!rec [rec_s.yaml]'))
+            focus = 'rec_control'
+        elif via == 'elem_tag' or udoc is None and safe2 is None:
+            put(safe1['doc'], ('r',), SP('raw', text='!rec [rec_s.yaml, !unsafe rec_u.yaml]' if rng.random() < 0.7 else '!rec [!unsafe rec_u.yaml]'))
+        else:
+            put(safe1['doc'], ('r',), SP('raw', text='!rec [rec_s.yaml]' if via != 'index' else '!rec [rec_s.yaml, rec_s.yaml]'))
+            ov = {'append': SP('append', args=L([S('rec_u.yaml')])), 'extend': SP('extend', args=L([S('rec_u.yaml')])),
+                  'index': M([[1, S('rec_u.yaml')]]), 'whole': SP('raw', text='!rec [rec_u.yaml]')}[via]
+            if how in ('root', 'source') and udoc is not None:
+                put(udoc['doc'], ('r',), ov)
+            else:
+                later = safe2 if safe2 is not None else s.doc()
+                if later not in ordered:
+                    ordered.append(later)
+                if ov['t'] == 'sp':
+                    later['doc']['unsafe'] = True        # no tag syntax on these nodes: the marker goes on the document
+                    later['unsafe'] = True
+                else:
+                    ov['unsafe'] = True
+                put(later['doc'], ('r',), ov)
     put(safe1['doc'], ('clean_top',), S(41))
     if rng.random() < 0.5:
         items = safe1['doc']['items']
@@ -317,14 +388,16 @@ def gen_case(rng, tier):
     for d in ordered:
         if d['doc']['items'] or d is safe1:
             sources.append({'text': emit.emit(d['doc'], rng.choice(['flow', 'block'])), 'safe': d['safe']})
-    files = {}
+    if raw_alias:
+        sources.append({'text': raw_alias, 'safe': True})
+    files = dict(rec_files)
     if how == 'include' and udoc['doc']['items']:
         files['inc_unsafe.yaml'] = emit.emit(udoc['doc'], 'flow')
         inc_doc = M([['pad0', S(0)]])
         # the include happens from unsafe content: an !include below an !unsafe mapping, merged at top level via a second document
         sources.insert(1, {'text': '--- !unsafe\nincl_holder: 1\n', 'safe': True})
         sources.insert(2, {'text': '!include inc_unsafe.yaml\n', 'safe': False})
-    return {'sources': sources, 'files': files, 'how': how}
+    return {'sources': sources, 'files': files, 'how': how, 'focus': focus}
 
 
 # ------------------------------------------------------------------ observation
@@ -392,7 +465,7 @@ def run(case):
         texts = [s_['text'] for s_ in case['sources']]
         flags = [s_['safe'] for s_ in case['sources']]
         what = f'sources={list(zip(texts, flags))!r} files={case["files"]!r}'
-        feats = ['how_' + case['how']]
+        feats = ['how_' + case['how'], 'focus_' + case.get('focus', '?')]
         mo = lib.outcome(lambda: [b.add_source(t, raw_yaml=True, safe=sf) for t, sf in zip(texts, flags)] and b.build())
         if mo[0] == 'err':
             return {'status': 'ok', 'nontrivial': False, 'feats': feats + ['merge_fails_' + lib.err_kind(mo[1])]}
@@ -437,6 +510,8 @@ def run(case):
             vio.append({'mech': 'unsafe-module-imported', 'what': f'module {m} was imported on behalf of unsafe content; {what}'})
     if got[0] == 'ok':
         feats.append('built')
+        if case.get('focus') == 'rec_control' and any(n_.startswith('s') for n_, _, _ in log) and isinstance(got[1].get('r'), dict) and 'ok' in got[1]['r']:
+            feats.append('rec_control_evaluated')
         if surv:
             vio.append({'mech': 'unsafe-node-not-refused', 'what': f'unsafe dynamic node(s) {surv} survive merging but the build succeeded; {what}'})
         # f-strings / evaluated code that resolved tainted names: their values carry the marker
